@@ -288,6 +288,7 @@ def run_property(prop, tier, seed):
             "bodies_in_fact_base": len(facts.all_fns),
             "bodies_evaluated_by_the_interpreter": len(__import__("absint").EVALUATED_BODIES),
             "evaluated_bodies": sorted(__import__("absint").EVALUATED_BODIES),
+            "rule_items": sorted({str(r.get("item")) for r in ctx.results}),
             "counters": ctx.counters,
             "floors": ctx.floors,
             "tree_hash": tree,
